@@ -71,6 +71,10 @@ class BitBuffer:
 
     def flush(self) -> None:
         if self._type is not None:
+            bits = self._type.size * 8
+            if self._buffer >> (bits - 1) and _is_signed(self._type):
+                # The unit is stored in a signed type and its top bit is set
+                self._buffer -= 1 << bits
             self._type._write(self.stream, self._buffer)
         self._type = None
         self._remaining = 0
@@ -80,3 +84,9 @@ class BitBuffer:
         self._type = None
         self._buffer = 0
         self._remaining = 0
+
+
+def _is_signed(type_: type[BaseType]) -> bool:
+    if (signed := getattr(type_, "signed", None)) is not None:
+        return signed
+    return getattr(type_, "packchar", "B") in ("b", "h", "i", "l", "q")
